@@ -30,11 +30,9 @@ func (obr *observerRunner) UpdateTableState(tableInfo *pokertable.Table) error {
 	obr.tableInfo = tableInfo
 
 	if !obr.systemMode {
-		// Filtering private information for observer
-		switch tableInfo.State.Status {
-		case pokertable.TableStateStatus_TableGamePlaying:
-			fallthrough
-		case pokertable.TableStateStatus_TableGameSettled:
+		// Filtering private information for observer: whenever a hand is attached,
+		// whatever the table status (a table closed or paused mid-hand still carries the live hand)
+		if tableInfo.State.GameState != nil {
 			tableInfo.State.GameState.AsObserver()
 		}
 	}
